@@ -550,7 +550,7 @@ abbrev FlagDoc := DocSpec FCol
     * any number of enums in schema public with pairwise different quoted names and plain quoted items,
     * any positive number of tables with pairwise different quoted names, each possibly under a one-line comment, each
       with any positive number of columns carrying any subset of `pk`, `increment`, `unique`, `not null`, possibly an
-      integer or one-line string default, a one-line note and (properties switch on) any number of arbitrary properties, whose type text
+      integer, one-line string or backtick-expression default, a one-line note and (properties switch on) any number of arbitrary properties, whose type text
       names no declared enum,
     * any number of pairwise different single-column references between columns of these tables, each either written
       INLINE in its first column (`ref: > "t"."c"` among the settings; `d.inl`, in document order, none many-to-many;
